@@ -337,6 +337,18 @@ def make(key):
     return D
 
 
+def make_focus(key):
+    """Long games with the plain alphabet (start / add player, drain, extra ball, end ball, time): reaches turns and
+    balls that the full alphabet cannot within its depth."""
+    base = make(key)
+
+    class F(base):
+        def ops(self):
+            return [["start"], ["drain"], ["extra_ball"], ["end_ball"]]
+    F.__name__ = "GameFocus_" + key
+    return F
+
+
 def body(ctx):
     quick = ctx.tier == "quick"
     keys = ["g12", "g22", "g23"] if quick else sorted(CONFIGS)
@@ -347,18 +359,27 @@ def body(ctx):
         ctx.violation(sig, what, {"config": keys[hist[0][1]], "history": hist[1:]})
     for k, v in res.stats.items():
         ctx.guard(k, v)
-    ctx.add(states=res.states, transitions=res.transitions, traces_validated_against_impl=res.transitions,
-            configurations=len(keys), levels=res.levels, exhaustive=True)
+    fkeys = ["g12", "g22"] if quick else ["g11", "g12", "g22", "g31"]
+    fdepth = 9 if quick else 11
+    fres = bfs([make_focus(k) for k in fkeys], fdepth, observe=False)
+    for sig, (what, hist) in fres.violations.items():
+        if sig not in res.violations:
+            ctx.violation(sig, what, {"config": fkeys[hist[0][1]], "history": hist[1:], "focus": True})
+    ctx.guard("focus_states", fres.states)
+    ctx.add(states=res.states + fres.states, transitions=res.transitions + fres.transitions,
+            traces_validated_against_impl=res.transitions + fres.transitions,
+            configurations=len(keys), levels=res.levels, focus_levels=fres.levels, focus_depth=fdepth, exhaustive=True)
     ctx.assume("game without ball devices (add_ball stubbed, 3 balls known, as the suite's fake-game test case does); "
                "configurations (balls_per_game, max_players) in %r" % sorted(CONFIGS.values()),
                "requests arriving where the statement is silent (e.g. what an extra ball does after an end-game request) are not judged",
-               "BFS depth 5 on 3 configurations (quick) / 6 on all 5 (thorough)")
+               "BFS depth 5 on 3 configurations (quick) / 6 on all 5 (thorough); focused search (start / drain / extra ball / "
+               "end ball / time only) to depth 9 on 2 (quick) / 11 on 4 configurations (thorough)")
     return ("drains", "held_queue_events", "ops_while_queue_event_held", "quiescent_states")
 
 
 def replay(ctx, data):
     rp = data["replay"]
-    d = make(rp["config"])()
+    d = (make_focus if rp.get("focus") else make)(rp["config"])()
     d.boot()
     for c in rp["history"]:
         d.step(c)
